@@ -7,6 +7,7 @@ import Proofs.C08_Data
 import Proofs.C08_Formats
 import Proofs.C08_Indep
 import Proofs.C08_Shape
+import Proofs.C08_Values
 namespace Atomman.C08
 open Atomman Atomman.C07
 set_option linter.unusedSimpArgs false
@@ -383,6 +384,37 @@ theorem load_dump_roundtrip_table_partial {f : Fmt} (hf : Readable f) (s : Sys) 
         loadTable text box pcols header =
           tableLoad (Loaded.init box ⟨true, true, true⟩ rows.length [] []) (rowsDoc f rows) pcols false) :=
   loadTable_writeTable hf s cols u header text hw hnames hn0
+
+/-- **load_dump_roundtrip_table_values** (load ∘ dump of the generic table, closed form per property): for the text
+    `table.dump` writes (`C07.writeTable`, header line or not) with rows `rows` (the cells `C07.tableRows` lays
+    out: one row per atom, ids ascending), loading with a `prop_info` list `pcols` that names each property once and
+    accounts for all columns gives a system of `rows.length` atoms in which every listed property (≠ the atom id)
+    has **the shape of its entry** and holds, atom by atom, **the printed values of its own column group**
+    (`groupG`: the columns after those of the entries before it; `cellRat f` = the value the printed token denotes)
+    — as they stand for `unit = None`, times the unit factor otherwise.  With `unit_roundtrip_error` this is
+    "to the printed precision and with unit conversions undone". -/
+theorem load_dump_roundtrip_table_values {f : Fmt} (hf : Readable f) (s : Sys) (cols : List ColSpec) (u : Units)
+    (header : Bool) (text : List Char) (hw : writeTable s cols u f header = .ok text)
+    (hnames : ∀ t ∈ (cols.map fun c => c.names.map strTok).flatten, CleanTok t)
+    (hn0 : (cols.map fun c => c.names.map strTok).flatten ≠ []) :
+    ∃ rows, tableRows s u (seqIds s.natoms) s.pos cols [] = .ok rows ∧
+      ∀ (box : Box Rat) (pcols : List PCol) (s' : Loaded),
+        rows ≠ [] → (∀ r ∈ rows, r.length = colsWidth pcols) → colsWidth pcols ≠ 0 →
+        (∀ i, idIndex pcols = some i →
+          (rows.map fun r => r.map (cellRat f)).Pairwise fun a b => (a[i]?).getD 0 ≤ (b[i]?).getD 0) →
+        (pcols.map (·.prop)).Nodup → loadTable text box pcols header = .ok s' →
+        s'.natoms = rows.length ∧
+        ∀ (j : Nat) (hj : j < pcols.length), pcols[j].prop ≠ "a_id" →
+          ∃ q, s'.prop? pcols[j].prop = some q ∧ q.shape = pcols[j].shape ∧
+            (pcols[j].unit = .none → q.vals = rows.map fun r => groupG pcols j (r.map (cellRat f))) ∧
+            (∀ v, pcols[j].unit = .factor v →
+              q.vals = rows.map fun r => (groupG pcols j (r.map (cellRat f))).map (· * v)) :=
+  table_file_values hf s cols u header text hw hnames hn0
+
+/-- the column groups of a row for the entries `type | w[0] | r[0][0] r[0][1] r[0][2]`. -/
+example : (List.range 3).map (fun j => groupG [⟨"atype", ["type"], [], .none⟩, ⟨"w", ["w[0]"], [1], .none⟩,
+    ⟨"r", ["r[0][0]", "r[0][1]", "r[0][2]"], [1, 3], .none⟩] j [(1 : Rat), 7, 4, 5, 6]) = [[1], [7], [4, 5, 6]] := by
+  decide +kernel
 
 /-- every `%.nf` format is readable (C07: `parseNum_fmtFixed`), so the theorems above apply to the default
     `'%.13f'` and to every fixed-point `float_format`. -/
